@@ -102,6 +102,8 @@ impl DurationEstimator {
         let calculate_cost =
             |d: usize, MeanVari(mean, vari): MeanVari| (rho - (d as f64 - mean) / vari).abs();
         while target_length != sum {
+            #[cfg(jbonsai_verif)]
+            crate::verif::yield_point(18);
             // search flexible state and modify its duration
             if target_length > sum {
                 let (found_duration, _) = duration
